@@ -24,6 +24,13 @@ pub fn match1(ratios: &[&str], reduced: bool) -> Alphabet {
         evs.push(buy(d, "X", "10", &format!("{bp}.5"), "2"));
         evs.push(sell(d, "X", "5", &format!("{}", sp + 1), "1"));
         evs.push(sell(d, "X", "10", &format!("{}", sp + 2), "0"));
+        if !reduced && i == 1 {
+            // dust: a sale of half a millionth of a share and, below, repurchases of the same size
+            evs.push(sell(d, "X", "0.0000005", "100", "0"));
+        }
+        if !reduced && (i == 2 || i == 4) {
+            evs.push(buy(d, "X", "0.0000005", "90", "0"));
+        }
         if !reduced && (i == 1 || i == 5) {
             // shares acquired for nothing (allowable cost exactly 0) on a day with sales
             evs.push(buy(d, "X", "7", "0", "0"));
@@ -321,6 +328,11 @@ pub fn events_reduced() -> Alphabet {
     }
     evs.push(split(off(b, 12), "X", "2"));
     evs.push(sell(off(b, 30), "X", "5", "30", "1"));
+    // a second early lot, a small cheap repurchase and a return large enough to drive that cheap lot negative while
+    // the disposal's other leg keeps the disposal total positive
+    evs.push(buy(off(b, -30), "X", "10", "11", "1"));
+    evs.push(buy(off(b, 5), "X", "3", "1", "0"));
+    evs.push(capret(off(b, 7), "X", "10", "60", "0"));
     Alphabet::new("events-reduced", evs, Rules::STRICT)
 }
 
